@@ -1,6 +1,6 @@
 (** C17 -- norm estimates and parameter estimators satisfy their documented inequalities.
     Only statements; each closed by [exact] of a lemma of coq/theories/C17.
-    Defect of the unchanged tree: Findings/C17_pdhg_factor.v. *)
+    (Remaining defects of the unchanged tree concern Diagonal.norm: known_findings.d/C17.json.) *)
 From Coq Require Import Reals Lra List Arith.
 From SV Require Import Base.Num Base.InnerSpace C17.Rayleigh C17.Estimators C17.DiagNorm.
 Import ListNotations.
@@ -129,13 +129,11 @@ Theorem C17_padmm_strict_iff :
 Proof. exact padmm_strict_iff. Qed.
 Print Assumptions C17_padmm_strict_iff.
 
-(** PDHG: sigma = ratio tau and tau sigma est^2 = factor, so the documented strict inequality
-    holds w.r.t. the estimate iff factor < 1, and w.r.t. any norm c >= est only if factor < 1.
-    (Full statement for the default factor 1.01: refuted, SVFind.C17_pdhg_factor.) *)
+(** PDHG: sigma = ratio tau and tau sigma est^2 = 1/factor *)
 Theorem C17_pdhg_ratio_and_product :
-  forall factor ratio est, 0 < ratio -> 0 < est -> 0 <= eff_factor factor ->
+  forall factor ratio est, 0 < ratio -> 0 < est -> 0 < eff_factor factor ->
     let '(tau, sigma) := pdhg_est sqrt factor ratio est in
-    sigma = ratio * tau /\ tau * sigma * (est * est) = eff_factor factor.
+    sigma = ratio * tau /\ tau * sigma * (est * est) = / eff_factor factor.
 Proof.
   intros factor ratio est Hr He Hf.
   pose proof (pdhg_product factor ratio est Hr He Hf) as P.
@@ -144,33 +142,43 @@ Proof.
 Qed.
 Print Assumptions C17_pdhg_ratio_and_product.
 
+(** FULL statement: the documented strict inequality tau sigma ||C||^2 < 1 holds w.r.t. the
+    estimate iff factor > 1 ... *)
 Theorem C17_pdhg_strict_iff :
-  forall factor ratio est, 0 < ratio -> 0 < est -> 0 <= eff_factor factor ->
+  forall factor ratio est, 0 < ratio -> 0 < est -> 0 < eff_factor factor ->
     (fst (pdhg_est sqrt factor ratio est) * snd (pdhg_est sqrt factor ratio est) * (est * est) < 1
-     <-> eff_factor factor < 1).
+     <-> 1 < eff_factor factor).
 Proof. exact pdhg_strict_iff. Qed.
 Print Assumptions C17_pdhg_strict_iff.
 
-Theorem C17_pdhg_true_norm_needs_factor_lt_1 :
-  forall factor ratio est, 0 < ratio -> 0 < est -> 0 <= eff_factor factor ->
-    forall c, est <= c ->
-    fst (pdhg_est sqrt factor ratio est) * snd (pdhg_est sqrt factor ratio est) * (c * c) < 1 ->
-    eff_factor factor < 1.
-Proof. exact pdhg_strict_true_norm. Qed.
-Print Assumptions C17_pdhg_true_norm_needs_factor_lt_1.
+(** ... in particular for the default factor 1.01, for every ratio and estimate *)
+Theorem C17_pdhg_default_strict :
+  forall ratio est, 0 < ratio -> 0 < est ->
+    let '(tau, sigma) := pdhg_est sqrt (Some (101 / 100)) ratio est in tau * sigma * (est * est) < 1.
+Proof. exact pdhg_default_strict. Qed.
+Print Assumptions C17_pdhg_default_strict.
 
-(** AS THE CODE BEHAVES: the default factor is on the wrong side for all inputs *)
-Theorem C17_pdhg_default_wrong_side :
-  forall ratio est c, 0 < ratio -> 0 < est -> est <= c ->
-    let '(tau, sigma) := pdhg_est sqrt (Some (101 / 100)) ratio est in 1 < tau * sigma * (c * c).
-Proof. exact pdhg_default_wrong_side. Qed.
-Print Assumptions C17_pdhg_default_wrong_side.
+(** w.r.t. any norm c (the true one): holds iff c^2 < factor est^2 *)
+Theorem C17_pdhg_true_norm_iff :
+  forall factor ratio est, 0 < ratio -> 0 < est -> 0 < eff_factor factor ->
+    forall c,
+    (fst (pdhg_est sqrt factor ratio est) * snd (pdhg_est sqrt factor ratio est) * (c * c) < 1
+     <-> c * c < eff_factor factor * (est * est)).
+Proof. exact pdhg_strict_true_norm_iff. Qed.
+Print Assumptions C17_pdhg_true_norm_iff.
+
+(** factor = None: the bare value, product exactly 1 *)
+Theorem C17_pdhg_factor_none :
+  forall ratio est, 0 < ratio -> 0 < est ->
+    let '(tau, sigma) := pdhg_est sqrt None ratio est in tau * sigma * (est * est) = 1.
+Proof. exact pdhg_none_product. Qed.
+Print Assumptions C17_pdhg_factor_none.
 
 (** non-vacuity: the hypotheses of the Rayleigh theorems are satisfiable (R as a 1-d space
     would need an instance; here: the estimator hypotheses) *)
 Example C17_pdhg_example :
-  fst (pdhg_est sqrt (Some (1 / 2)) 1 1) * snd (pdhg_est sqrt (Some (1 / 2)) 1 1) * (1 * 1) < 1.
-Proof. apply (pdhg_strict_iff (Some (1 / 2)) 1 1); cbn; lra. Qed.
+  fst (pdhg_est sqrt (Some 2) 1 1) * snd (pdhg_est sqrt (Some 2) 1 1) * (1 * 1) < 1.
+Proof. apply (pdhg_strict_iff (Some 2) 1 1); cbn; lra. Qed.
 
 (** the hypotheses of the Rayleigh theorems are satisfiable *)
 Example C17_rayleigh_nonvacuous :
